@@ -415,6 +415,12 @@ def check_property(prop, tier, seed, workers, replay=None, budget_s=None, run_li
                 continue
             viol_paths.append(finalize_violation(binary, prop, seed, rp, tmp, note="worker process died"))
         violations.sort(key=lambda v: v["run"])
+        if len(violations) > 3:
+            tally = {}
+            for v in violations:
+                tally[v["check"]] = tally.get(v["check"], 0) + 1
+            for k, n in sorted(tally.items(), key=lambda kv: -kv[1]):
+                log("  tally: %5d x %s" % (n, k))
         for v in violations[:3]:
             rp = json.load(open(v["replay"]))
             viol_paths.append(finalize_violation(binary, prop, seed, rp, tmp))
